@@ -308,10 +308,29 @@ func verifH_C04_rules() {
 		if verifChoose("opt", 2) == 1 {
 			opts, disabled = append(opts, DisableSchemaDefaultsValidation()), true
 		}
-	case 22: // example violating the schema (option: DisableExamplesValidation)
-		mt := sites.medias[verifChoose("site", len(sites.medias))]
-		mt.Schema = &SchemaRef{Value: &Schema{Type: &Types{"string"}}}
-		mt.Example, mt.Examples = 3.0, nil
+	case 22: // example violating the schema, at a media type, a parameter or a header (option: DisableExamplesValidation)
+		strS := &SchemaRef{Value: &Schema{Type: &Types{"string"}}}
+		bad := Examples{"e": &ExampleRef{Value: &Example{Value: 3.0}}}
+		switch verifChoose("subject", 5) {
+		case 0:
+			mt := sites.medias[verifChoose("site", len(sites.medias))]
+			mt.Schema = strS
+			mt.Example, mt.Examples = 3.0, nil
+		case 1:
+			p := sites.params[verifChoose("site", len(sites.params))]
+			p.Schema, p.Content, p.Example, p.Examples = strS, nil, 3.0, nil
+		case 2:
+			p := sites.params[verifChoose("site", len(sites.params))]
+			p.Schema, p.Content, p.Example, p.Examples = strS, nil, nil, bad
+		case 3:
+			h := sites.headers[verifChoose("site", len(sites.headers))]
+			knownEnc = knownEnc || sites.encHeaders[h]
+			h.Schema, h.Content, h.Example, h.Examples = strS, nil, 3.0, nil
+		case 4:
+			h := sites.headers[verifChoose("site", len(sites.headers))]
+			knownEnc = knownEnc || sites.encHeaders[h]
+			h.Schema, h.Content, h.Example, h.Examples = strS, nil, nil, bad
+		}
 		if verifChoose("opt", 2) == 1 {
 			opts, disabled = append(opts, DisableExamplesValidation()), true
 		}
